@@ -82,9 +82,16 @@ def _front_census(case, ctx):
     key = ('front', tuple(case['items']), bool(case.get('close')))
     cache = ctx.data.setdefault('census', {})
     if key not in cache:
-        c = dict(case, inject={'mode': 'none'}, front={'mode': 'census'}, close=True, observe=[])
-        obs = IC.execute(c, ctx)
-        cache[key] = obs.get('front_trace') or []
+        # the first serialisation of a class in a process runs one-off analysis code in the forwarding thread: repeat until two censuses agree
+        prev = None
+        for _ in range(4):
+            c = dict(case, inject={'mode': 'none'}, front={'mode': 'census'}, close=True, observe=[])
+            obs = IC.execute(c, ctx)
+            tr = obs.get('front_trace') or []
+            if prev is not None and len(tr) == len(prev):
+                break
+            prev = tr
+        cache[key] = tr
     return cache[key]
 
 
